@@ -86,6 +86,7 @@ func runWorker(args []string) int {
 	out := fs.String("out", "", "")
 	trace := fs.String("trace", "", "")
 	rsec := fs.String("replay-section", "", "")
+	patient := fs.Bool("patient", false, "suspicion threshold at the confirmation limit (second attempt at a shard)")
 	ridx := fs.Uint64("replay-index", 0, "")
 	race := fs.Bool("racepart", false, "run the RunRace workload")
 	_ = fs.Parse(args)
@@ -112,7 +113,7 @@ func runWorker(args []string) int {
 			return 2
 		}
 	}
-	c.StartWatchdog(*out+".suspect", c.Replay != nil)
+	c.StartWatchdog(*out+".suspect", c.Replay != nil, *patient)
 	start := time.Now()
 	if *race {
 		if def.RunRace != nil {
@@ -470,9 +471,17 @@ func (m *merge) handleDeadWorker(oc shardOutcome, workdir string) {
 					Aspect: "alloc/heap-cap", Detail: core.W{"note": "heap above 3 GiB while this single case was in flight", "watchdog": string(susp)}, Race: oc.job.race})
 			case r2.res != nil:
 				m.notes = append(m.notes, fmt.Sprintf("inconclusive-noise: watchdog suspicion %q not confirmed in isolation", strings.TrimSpace(string(susp))))
-				m.addResult(r2.res)
-				// The rest of that shard was not explored.
-				m.inconcl = append(m.inconcl, fmt.Sprintf("shard %d stopped by an unconfirmed watchdog suspicion", oc.job.shard))
+				// The case is not a hang (it finished within the confirmation limit when run alone), but
+				// the rest of that shard was not explored: run the shard once more with the suspicion
+				// threshold at the confirmation limit.
+				r3 := runShard(m.prop, m.tier, m.seed, oc.job, workdir, "-patient")
+				if r3.res != nil && r3.exitCode == 0 {
+					m.notes = append(m.notes, fmt.Sprintf("shard %d re-run with the 20 CPU-second threshold: completed", oc.job.shard))
+					m.addResult(r3.res)
+				} else {
+					m.addResult(r2.res)
+					m.inconcl = append(m.inconcl, fmt.Sprintf("shard %d stopped by an unconfirmed watchdog suspicion (twice)", oc.job.shard))
+				}
 			default:
 				m.harnessErr = append(m.harnessErr, "confirmation run failed: "+stderrOf(r2))
 			}
